@@ -70,12 +70,27 @@ def generate(rng, tier):
 
 
 UNSIGNED = [False]
+ARRAY_CONSTS = [False]
+SINGLE = [False]
 
 
 def arr(v, d):
     if d == 0 and UNSIGNED[0]:
         return np.array(v, dtype=np.uint64 if len(v) % 2 else np.uint32)
+    if d == 32:
+        return np.array(v, dtype=np.float32)
     return np.array(v, dtype=np.int64 if d == 0 else np.float64)
+
+
+CONSTS_USED = [None]
+
+
+def consts():
+    """the material constants as Python floats or (what a file reader hands over) as 0-d numpy arrays"""
+    kw = L.kwargs_of(MAT)
+    if ARRAY_CONSTS[0]:
+        kw = {k: np.array(v) for k, v in kw.items()}
+    return kw
 
 
 def with_zeros(case):
@@ -94,7 +109,10 @@ def with_zeros(case):
 def build_call(pystog, case, force_float=False):
     """returns (callable, list of argument arrays)"""
     dt = [1, 1, 2 if case["dt"][2] else 0, 1] if force_float else case["dt"]
-    kw = L.kwargs_of(MAT)
+    if SINGLE[0]:       # the data (and their uncertainties) in single precision, abscissae in double
+        dt = [32 if case["group"] == "ft" else 1, 32, 33 if case["dt"][2] else 0, 1]     # (the core transform: the input grid too)
+    kw = consts()
+    CONSTS_USED[:] = [kw]
     g = case["group"]
     if g == "conv":
         x, y = arr(case["x"], dt[0]), arr(case["y"], dt[1])
@@ -199,6 +217,42 @@ def run_impl(pystog, case):
         for a, b in zip(out, ref))
     res = {"error": err, "kinds": kinds(out), "mutated": mutated, "reproducible": bool(rep), "same_as_float": bool(same),
            "out": [None if o is None else np.asarray(o, float).tolist() for o in out][:2]}
+    # the material constants given as 0-d numpy arrays: same result, and the caller's arrays are not touched
+    if case["group"] in ("conv", "named", "filter") and err is None:
+        try:
+            ARRAY_CONSTS[0] = True
+            acall, _ = build_call(pystog, case)
+            kwa = CONSTS_USED[0]
+            before_c = {k: float(v) for k, v in kwa.items()}
+            try:
+                ao = [None if o is None else np.asarray(o, float) for o in acall()]
+                aerr = None
+            except Exception as e:
+                ao, aerr = [], "%s: %s" % (type(e).__name__, str(e)[:160])
+            changed = [k for k, v in kwa.items() if float(v) != before_c[k]]
+        finally:
+            ARRAY_CONSTS[0] = False
+        res["consts_error"] = aerr
+        res["consts_changed"] = changed
+        res["consts_same"] = bool(aerr is None and len(ao) == len(out) and all(
+            (a is None and b is None) or (a is not None and b is not None and np.array_equal(a, np.asarray(b, float), equal_nan=True)) for a, b in zip(ao, out)))
+    # single-precision data with exactly representable values on double-precision abscissae: the same numbers, the same result
+    if case["group"] in ("conv", "named") or (case["group"] == "ft" and not case.get("lorch") and not case.get("omitted")):
+        try:
+            SINGLE[0] = True
+            scall, _ = build_call(pystog, case)
+            try:
+                so = [None if o is None else np.asarray(o, float) for o in scall()]
+                serr_ = None
+            except Exception as e:
+                so, serr_ = [], "%s: %s" % (type(e).__name__, str(e)[:160])
+        finally:
+            SINGLE[0] = False
+        res["single_error"] = serr_
+        res["single_same"] = bool(serr_ is None and len(so) == len(ref) and all(
+            (a is None and b is None) or (a is not None and b is not None and np.array_equal(a, b, equal_nan=True)) for a, b in zip(so, ref)))
+        if not res["single_same"] and serr_ is None:
+            res["single_out"] = [[None if o is None else o.tolist() for o in so][:2], [None if o is None else o.tolist() for o in ref][:2]]
     # unsigned integer arrays (counts) with zeros in them: the same values as floating arrays must give the same result
     if 0 in case["dt"] and case["group"] in ("conv", "ft", "named", "filter", "crop") and all(v >= 0 for v in case["x"]):
         cz = with_zeros(case)
@@ -256,6 +310,16 @@ def oracle(pystog, case, res):
         return "%s is not reproducible (differs after freed heap blocks were refilled)" % name
     if not res["same_as_float"]:
         return "%s gives a different result for integer than for equal floating input (silent truncation): %r" % (name, res["out"])
+    if res.get("consts_error"):
+        return "%s raised %s when the material constants are given as 0-d numpy arrays" % (name, res["consts_error"])
+    if res.get("consts_changed"):
+        return "%s modified the material constant(s) %r it was given (0-d numpy arrays)" % (name, res["consts_changed"])
+    if res.get("consts_same") is False:
+        return "%s gives a different result when the material constants are 0-d numpy arrays instead of floats" % name
+    if res.get("single_error"):
+        return "%s raised %s for single-precision data" % (name, res["single_error"])
+    if res.get("single_same") is False:
+        return "%s gives a different result for single-precision data than for the same values in double precision: %r" % (name, res.get("single_out"))
     if res.get("unsigned_error"):
         return "%s raised %s for unsigned integer input" % (name, res["unsigned_error"])
     if res.get("unsigned_same") is False:
